@@ -86,7 +86,15 @@ def dispatch (fn : String) (args : List String) (impl : String) : Option Verdict
         | none => (some false, "unreadable-output")
         | some (written, panicked) =>
           match Spec.checkConn c readerIdle ⟨[], chunks⟩ written panicked with
-          | none => (some true, "")
+          | none =>
+            -- WebSocket hand-off: the model's choice IS the rule of the property (`wsHandler_some_iff`,
+            -- Props/C04Ws.lean: first matching ws route of the first matching host, else of the default
+            -- sub-app), so an upgrade handed to any other handler, or to none, is a routing violation.
+            let wsImpl := match impl.splitOn "] WS[" with
+              | [_, t] => (t.splitOn "] X[").head?
+              | _ => none
+            let wsModel := match r.ws with | some i => i | none => "-"
+            if wsImpl == some wsModel then (some true, "") else (some false, "upgrade-routed-to-wrong-handler")
           | some why => (some false, why)
       some { model := renderResult r, spec := spec, reason := reason }
     | _, _, _ => some { model := "BADARGS" }
